@@ -39,6 +39,9 @@ type Cfg struct {
 	Trans   string `json:"trans"`   // none id custom
 	Default string `json:"default"` // "" = none, else JSON text
 	Store   string `json:"store"`   // mock badger
+	// Shared: (IDTransformer only) the same Transformer value also serves a second handler on
+	// another pattern with its own store, which publishes first.
+	Shared bool `json:"shared,omitempty"`
 }
 
 // Mut is one mutation.
@@ -88,6 +91,10 @@ func customTransform(cfg Cfg) func(id string, v interface{}) (interface{}, error
 			if err := json.Unmarshal(b, &m); err != nil {
 				return nil, err
 			}
+			if _, gone := m["gone"]; gone {
+				// a record the transformer hides (e.g. soft-deleted): the resource does not exist
+				return nil, store.ErrNotFound
+			}
 			out := map[string]json.RawMessage{}
 			for k, x := range m {
 				switch k {
@@ -106,6 +113,9 @@ func customTransform(cfg Cfg) func(id string, v interface{}) (interface{}, error
 		}
 		out := []json.RawMessage{}
 		for _, x := range l {
+			if string(x) == `"gone"` {
+				return nil, store.ErrNotFound
+			}
 			if string(x) != "null" {
 				out = append(out, x)
 			}
@@ -130,7 +140,10 @@ func served(cfg Cfg, text string, exists bool) string {
 		text = string(b)
 	}
 	if cfg.Trans == "custom" {
-		v, _ := customTransform(Cfg{Type: cfg.Type, Store: "mock"})("", json.RawMessage(text))
+		v, err := customTransform(Cfg{Type: cfg.Type, Store: "mock"})("", json.RawMessage(text))
+		if err != nil {
+			return "" // hidden by the transformer: served as missing, the default does not apply
+		}
 		b, _ := json.Marshal(v)
 		return canon(b)
 	}
@@ -245,6 +258,11 @@ func newFixture(cfg Cfg) (*fixture, error) {
 		typ = res.Collection
 	}
 	s.Handle(pattern, typ, h)
+	var st2 *mockstore.Store
+	if cfg.Shared && cfg.Trans == "id" {
+		st2 = mockstore.NewStore()
+		s.Handle("o.$id", typ, store.Handler{Store: st2, Transformer: h.Transformer})
+	}
 	f.s = s
 	f.conn = fakeconn.New()
 	rn, err := svc.Start(s, f.conn, nil)
@@ -253,6 +271,16 @@ func newFixture(cfg Cfg) (*fixture, error) {
 		return nil, err
 	}
 	f.rn = rn
+	if st2 != nil {
+		// the other handler publishes first
+		tx := st2.Write("1")
+		v := `{"a":1}`
+		if cfg.Type == "collection" {
+			v = `[1]`
+		}
+		_ = tx.Create(storedValue(cfg, v))
+		_ = tx.Close()
+	}
 	oc := f.cleanup
 	f.cleanup = func() { _ = rn.Stop(); oc() }
 	return f, nil
@@ -558,7 +586,7 @@ func lcs(a, b []json.RawMessage) int {
 
 func genElem() *rapid.Generator[string] {
 	return rapid.OneOf(
-		rapid.SampledFrom([]string{`1`, `2`, `"a"`, `"b"`, `null`, `true`, `{"rid":"svc.r.1"}`, `{"rid":"svc.r.2","soft":true}`, `{"data":{"x":[1,2]}}`, `{"data":[1]}`, `1.5`, `"é\"x"`}),
+		rapid.SampledFrom([]string{`1`, `2`, `"a"`, `"b"`, `null`, `true`, `{"rid":"svc.r.1"}`, `{"rid":"svc.r.2","soft":true}`, `{"data":{"x":[1,2]}}`, `{"data":[1]}`, `1.5`, `"é\"x"`, `"gone"`}),
 		rapid.Map(gen.ResValue(false), func(v gen.Val) string { return string(v.Wire()) }),
 	)
 }
@@ -573,9 +601,12 @@ func genValue(typ string) *rapid.Generator[string] {
 			}
 			return "[" + strings.Join(parts, ",") + "]"
 		}
-		keys := []string{"a", "b", "c", "hidden", "name"}
+		keys := []string{"a", "b", "c", "hidden", "name", "gone"}
 		var parts []string
 		for _, k := range keys {
+			if k == "gone" && rapid.IntRange(0, 4).Draw(t, "gone") != 0 {
+				continue
+			}
 			if rapid.Bool().Draw(t, "has-"+k) {
 				parts = append(parts, strconv.Quote(k)+":"+genElem().Draw(t, "val"))
 			}
@@ -589,6 +620,7 @@ func genCfg(storeKind string) *rapid.Generator[Cfg] {
 		c := Cfg{Store: storeKind}
 		c.Type = rapid.SampledFrom([]string{"model", "collection"}).Draw(t, "type")
 		c.Trans = rapid.SampledFrom([]string{"none", "id", "custom"}).Draw(t, "trans")
+		c.Shared = c.Trans == "id" && rapid.IntRange(0, 2).Draw(t, "shared") == 0
 		if storeKind == "badger" && c.Type == "collection" && c.Trans == "none" {
 			c.Trans = "id"
 		}
